@@ -21,6 +21,16 @@ pub(crate) fn read_nint<R: BufRead + Seek>(raw: &mut Deserializer<R>) -> Result<
     }
 }
 
+/// Writes a CBOR negative integer in its shortest form for any value in -2^64..=-1.
+/// `Serializer::write_negative_integer` takes an `i64` and overflows on `i64::MIN`.
+pub(crate) fn write_nint<'se, W: Write>(
+    serializer: &'se mut Serializer<W>,
+    value: i128,
+) -> cbor_event::Result<&'se mut Serializer<W>> {
+    let sz = cbor_event::Sz::canonical((-value - 1) as u64);
+    serializer.write_negative_integer_sz(value, sz)
+}
+
 pub(super) fn deserialize_and_check_index<R: BufRead + Seek>(
     raw: &mut Deserializer<R>,
     desired_index: Option<u64>,
